@@ -12,7 +12,8 @@
 EXTENDS Integers, Sequences, FiniteSets, TLC
 
 DocumentedKeys == {"no-document", "validation", "calculation", "marshal", "unmarshal", "signature", "digest", "internal", "unknown-schema"}
-Pipeline == <<"Parse", "ValidateRaw", "Calculate", "Validate", "Digest", "Sign", "Verify", "Correct", "Replicate", "Marshal">>
+Pipeline == <<"Parse", "ValidateRaw", "Calculate", "Validate", "Digest", "Sign", "Verify", "Correct", "CorrectCopy", "CorrectData", "OptionsSchema",
+              "Replicate", "Marshal">>
 
 \* a return is acceptable iff it is a result or a keyed error
 Returns(out) == out = "ok" \/ out \in DocumentedKeys
